@@ -29,6 +29,7 @@ from .datatypes import DATATYPES, DATATYPES_STRUCTS
 from .groups import GROUPS
 from .tables import TABLES
 
+from .. import v2_7  # noqa: import the package before its submodule (import-lock order, thread safety)
 from ..v2_7.base_datatypes import ST, FT, ID, IS, TX, GTS, SNM, WD
 from hl7apy.exceptions import ChildNotFound
 
